@@ -26,11 +26,30 @@ ASSUMPTIONS = ["np.linalg.solve(A, b) returns the unique solution for non-singul
 IV = "ivector:"
 
 
+class _Component(ast.AST):
+    """A marker expression: component `index` of the tuple a call returns (stats.x, lost = helper(...))."""
+    _fields = ("call",)
+
+
 def _acc_store(f, attr):
     for st, t, v, k in stores(f):
         if isinstance(t, ast.Attribute) and t.attr == attr and v is not None:
+            if isinstance(st, ast.Assign) and isinstance(v, ast.Call):
+                for tg in st.targets:
+                    if isinstance(tg, ast.Tuple) and t in tg.elts:
+                        v._component = tg.elts.index(t)
             return st, v
     return None, None
+
+
+def _terms_of_store(gp, st, v):
+    """terms of the stored value; for `a.x, b = helper(...)` those of the matching component of what the helper returns"""
+    idx = getattr(v, "_component", None)
+    if idx is not None:
+        got = gp._inline(v, idx)
+        if got is not None:
+            return got
+    return gp.terms(v, gp.du.stmt_of(st))
 
 
 def posterior_locals(P, f):
@@ -94,21 +113,21 @@ def check_fnorm(P, R):
     if v is None:
         R.violation("POL.fnorm", g.key, "stats.fnorm_sigma_wij accumulation", "the Fnorm E[w]' accumulator is no longer updated")
     else:
-        t = [x for x in dict.fromkeys(gp.terms(v, gp.du.stmt_of(st))) if not any("fnorm_sigma_wij" in a for a in x[1])]
+        t = [x for x in dict.fromkeys(_terms_of_store(gp, st, v)) if not any("fnorm_sigma_wij" in a for a in x[1])]
         pol.check_row(R, "POL.fnorm", g.key, t, dict(atoms=["sum_px"], sign="+", why="first-order statistics"))
         pol.check_row(R, "POL.fnorm", g.key, t, dict(atoms=["ubm.means", "means"], sign="-", with_=["n"], why="N times the UBM mean is subtracted"))
     st, v = _acc_store(g, "snormij")
     if v is None:
         R.violation("POL.snorm", g.key, "stats.snormij accumulation", "the Snorm accumulator is no longer updated")
     else:
-        t = [x for x in dict.fromkeys(gp.terms(v, gp.du.stmt_of(st))) if not any("snormij" in a for a in x[1])]
+        t = [x for x in dict.fromkeys(_terms_of_store(gp, st, v)) if not any("snormij" in a for a in x[1])]
         pol.check_row(R, "POL.snorm", g.key, t, dict(atoms=["sum_pxx"], sign="+", why="second-order statistics"))
         cross = [x for x in t if any(a.endswith(".sum_px") for a in x[1])]
         sq = [x for x in t if any(a.endswith(".n") for a in x[1])]
         R.check(bool(cross) and all(s_ == -1 for s_, a in cross), "POL.snorm", g.key, "- 2 F m", pol.fmt_terms(cross), f"the cross term of Snorm is not subtracted: {pol.fmt_terms(cross) or 'missing'}", st.lineno)
         R.check(bool(sq) and all(s_ == 1 for s_, a in sq), "POL.snorm", g.key, "+ N m^2", pol.fmt_terms(sq), f"the N m^2 term of Snorm is not added: {pol.fmt_terms(sq) or 'missing'}", st.lineno)
         gc = pol.Pol(P, g, track_coef=True)
-        tc = [x for x in dict.fromkeys(gc.terms(v, gc.du.stmt_of(st))) if not any("snormij" in a for a in x[1])]
+        tc = [x for x in dict.fromkeys(_terms_of_store(gc, st, v)) if not any("snormij" in a for a in x[1])]
         pol.check_coefficients(R, "POL.snorm-coef", g.key, tc, [(["sum_pxx"], None), (["sum_px"], 2), (["n"], None)], what="Snorm = S - 2 F m + N m^2", line=st.lineno)
 
 
@@ -129,7 +148,7 @@ def check_precision(P, R):
     if v is None:
         R.violation("PREC.second-moment", g.key, "stats.nij_sigma_wij2 accumulation", "the N E[ww'] accumulator is no longer updated")
         return
-    t = [x for x in dict.fromkeys(gp.terms(v, gp.du.stmt_of(st))) if not any("nij_sigma_wij2" in a for a in x[1])]
+    t = [x for x in dict.fromkeys(_terms_of_store(gp, st, v)) if not any("nij_sigma_wij2" in a for a in x[1])]
     cov = [x for x in t if any("inv" in a or a == "post:cov" for a in x[1])]
     R.check(bool(t) and all(s_ == 1 for s_, a in t) and len(t) >= 2 and bool(cov), "PREC.second-moment", g.key, f"N E[w w'] = {pol.fmt_terms(t)[:90]}", "N * (posterior covariance + outer product of the mean), all positive", f"the accumulated second moment is not N * (inverse precision + mean outer product): {pol.fmt_terms(t)[:120]}", st.lineno)
     R.check(all(any(a.endswith(".n") for a in x[1]) for x in t), "PREC.second-moment", g.key, "weighted by the counts", "", "E[w w'] is not weighted by the counts", st.lineno)
@@ -314,10 +333,14 @@ def run(P, R, tier):
     need = {"nij_sigma_wij2": ("n", "post:"), "fnorm_sigma_wij": ("sum_px", "post:"), "snormij": ("sum_pxx",), "nij": ("n",)}
     for st, t, v, k in stores(e):
         if isinstance(t, ast.Attribute) and t.attr in need:
-            terms = list(dict.fromkeys(ep.terms(v, edu.stmt_of(st))))
+            if isinstance(st, ast.Assign) and isinstance(v, ast.Call):
+                for tg_ in st.targets:
+                    if isinstance(tg_, ast.Tuple) and t in tg_.elts:
+                        v._component = tg_.elts.index(t)
+            terms = list(dict.fromkeys(_terms_of_store(ep, st, v)))
             prev = [x for x in terms if any(a.endswith("." + t.attr) for a in x[1]) and len(x[1]) == 1]
             new_t = [x for x in terms if x not in prev]
-            R.check(bool(prev) and all(s_ == 1 for s_, a in prev), "DEP.accumulators", e.key, f"{t.attr} adds to its previous value", "", f"accumulator {t.attr} is overwritten instead of accumulated over the samples", st.lineno)
+            R.check(any(s_ == 1 for s_, a in prev), "DEP.accumulators", e.key, f"{t.attr} adds to its previous value", "", f"accumulator {t.attr} is overwritten instead of accumulated over the samples", st.lineno)
             for nd in need[t.attr]:
                 got = any(any((a.endswith("." + nd) or nd in a) for a in x[1]) for x in new_t)
                 R.check(got, "DEP.accumulators", e.key, f"{t.attr} accumulates a term with {nd}", "", f"accumulator {t.attr} lacks its {nd} factor ({pol.fmt_terms(new_t)[:90]})", st.lineno)
